@@ -1,19 +1,1368 @@
-// Package c07: STUB — property C07 is not built yet.
+// Package c07: shutdown of martian.Proxy (Serve / handleLoop / handle / Close) — trace validation
+// against the Lean interleaving model (Model/Shutdown.lean) plus the property oracle.
+//
+// One op = one scenario, run on the REAL proxy over loopback TCP, without any hook:
+//
+//	scn p=<pt,..> x=<n,..> q=<0|1,..> s=<0|1,..> o=<perm> b=<bodyLen>
+//	    1..3 connections, connection k is driven to progress point p[k] after x[k] complete exchanges
+//	    (request Connection: close = q[k], response Close = s[k] on the parked exchange), then Close()
+//	    is called (own goroutine, deadline), then the parked connections are released in order o.
+//	    points: idle head reqmod rt resmod write | gate (Serve held between Accept and `go handleLoop`
+//	    by a net.Conn whose RemoteAddr blocks) | late (connects after shutdown is observable)
+//	race c=<clients> d=<delay µs> — clients connect/request concurrently with Close()
+//
+// Every event (listener accept, modifier/round-trip entry and exit, first/last byte of a response at
+// the server-side conn, conn.Close by the handler, client sends, client-observed responses and EOF,
+// Close call/return) is appended to one mutex-protected log: its order is a linearisation that
+// respects happens-before. The log is sent to the Lean driver (`trace …`), which must accept it as the
+// visible projection of a run of the model. The oracle (below) states C07 directly over the log.
 package c07
 
-import "verif/harness/internal/core"
+import (
+	"bufio"
+	"bytes"
+	"fmt"
+	"io"
+	"net"
+	"net/http"
+	"runtime"
+	"sort"
+	"strconv"
+	"strings"
+	"sync"
+	"sync/atomic"
+	"time"
+
+	martian "github.com/google/martian/v3"
+	mlog "github.com/google/martian/v3/log"
+
+	"verif/harness/internal/core"
+)
 
 type P struct{}
 
 func init() { core.Register(P{}) }
 
-func (P) ID() string   { return "C07" }
-func (P) Rule() string { return "stub" }
-func (P) Gen(r *core.Rand, tier string, emit func([]string)) {}
-func (P) NewExec() core.Exec                                   { return ex{} }
-func (P) Nontrivial(ops []string, impl []string) bool         { return false }
+func (P) ID() string { return "C07" }
+func (P) Rule() string {
+	return "case = one scenario on a real martian.Proxy over loopback TCP: 1..3 connections each parked at one of the progress points " +
+		"idle / mid request head / in request modifier / in round trip / in response modifier / while the response is written " +
+		"(after 0..2 complete exchanges, with or without Connection: close on request or response), optionally one connection held " +
+		"between Accept and the handler spawn (blocking RemoteAddr) or one connecting after shutdown began; Close() is called and the " +
+		"parked connections are released in a given order; or a race of N clients against Close(). The recorded event trace is " +
+		"validated against the Lean model and judged by the oracle. Distinct by hash of the op; non-trivial when Close() was called " +
+		"while at least one connection was parked inside an exchange, held before the spawn, or accepted late, or (race) when at least " +
+		"one exchange started"
+}
+
+func (P) Nontrivial(ops []string, impl []string) bool {
+	for i, op := range ops {
+		if strings.HasPrefix(op, "scn ") {
+			for _, pt := range []string{"reqmod", "rt", "resmod", "write", "gate", "late", "head"} {
+				if strings.Contains(op, pt) {
+					return true
+				}
+			}
+		}
+		if strings.HasPrefix(op, "race ") && i < len(impl) && strings.Contains(impl[i], "started=1") {
+			return true
+		}
+	}
+	return false
+}
+
+const (
+	stepDeadline = 4 * time.Second
+	hostName     = "c07.test"
+)
+
+// ---- event log ----
+
+type evlog struct {
+	mu  sync.Mutex
+	evs []string
+}
+
+func (l *evlog) add(format string, a ...interface{}) int {
+	s := fmt.Sprintf(format, a...)
+	l.mu.Lock()
+	l.evs = append(l.evs, s)
+	n := len(l.evs) - 1
+	l.mu.Unlock()
+	return n
+}
+
+func (l *evlog) snapshot() []string {
+	l.mu.Lock()
+	defer l.mu.Unlock()
+	return append([]string{}, l.evs...)
+}
+
+// ---- the world of one scenario ----
+
+type world struct {
+	log       *evlog
+	p         *martian.Proxy
+	ln        *wlistener
+	mu        sync.Mutex
+	conns     map[string]*sconn // by client address (= RemoteAddr of the accepted conn)
+	byIdx     []*sconn
+	plans     []*cplan // plan for the k-th accepted connection
+	body      []byte
+	serveDone chan struct{}
+}
+
+// cplan says where (if anywhere) the k-th connection is to be parked.
+type cplan struct {
+	point    string
+	parkSeq  int  // exchange number (0-based) on which to park
+	resClose bool // response Close on the parked exchange
+	gate     chan struct{}
+	parked   chan struct{}
+	once     sync.Once
+	gonce    sync.Once
+}
+
+func (c *cplan) arrive()  { c.once.Do(func() { close(c.parked) }) }
+func (c *cplan) release() { c.gonce.Do(func() { close(c.gate) }) }
+
+func waitCh(ch <-chan struct{}, d time.Duration) bool {
+	select {
+	case <-ch:
+		return true
+	case <-time.After(d):
+		return false
+	}
+}
+
+// sconn wraps the server-side connection handed to Serve.
+type sconn struct {
+	net.Conn
+	w         *world
+	k         int
+	plan      *cplan
+	raddrN    int32
+	inRead    int32
+	readCalls int32
+	readN     int64 // bytes delivered to the proxy
+	closed    chan struct{}
+	conce     sync.Once
+	wmu       sync.Mutex
+	wpending  int // bytes of the current response still to be written
+	wseq      int // responses started
+}
+
+type fixedAddr string
+
+func (a fixedAddr) Network() string { return "tcp" }
+func (a fixedAddr) String() string  { return string(a) }
+
+// calledFromServe reports whether (*Proxy).Serve is on the caller's stack.
+func calledFromServe() bool {
+	pc := make([]uintptr, 24)
+	n := runtime.Callers(3, pc)
+	frames := runtime.CallersFrames(pc[:n])
+	for {
+		f, more := frames.Next()
+		if strings.HasSuffix(f.Function, "(*Proxy).Serve") {
+			return true
+		}
+		if !more {
+			return false
+		}
+	}
+}
+
+func (c *sconn) RemoteAddr() net.Addr {
+	if atomic.LoadInt32(&c.raddrN) == 0 && calledFromServe() && atomic.AddInt32(&c.raddrN, 1) == 1 {
+		// evaluated by Serve (for its debug log) between Accept and `go p.handleLoop(conn)`
+		c.w.log.add("raddr:%d", c.k)
+		if c.plan != nil && c.plan.point == "gate" {
+			c.plan.arrive()
+			waitCh(c.plan.gate, 30*time.Second)
+		}
+	}
+	return c.Conn.RemoteAddr()
+}
+
+func (c *sconn) Read(b []byte) (int, error) {
+	if atomic.AddInt32(&c.readCalls, 1) == 1 {
+		atomic.StoreInt32(&c.raddrN, 1) // the handler runs: Serve is past this connection
+		// first read of the handler: it has passed conns.Add(1) and the Closing() check
+		c.w.log.add("rd:%d", c.k)
+	}
+	atomic.StoreInt32(&c.inRead, 1)
+	n, err := c.Conn.Read(b)
+	atomic.AddInt64(&c.readN, int64(n))
+	atomic.StoreInt32(&c.inRead, 0)
+	return n, err
+}
+
+func (c *sconn) Close() error {
+	c.conce.Do(func() {
+		c.w.log.add("cc:%d", c.k)
+		close(c.closed)
+	})
+	return c.Conn.Close()
+}
+
+// Write observes the first and the last byte of every response and implements the "slow client"
+// park point: the first half of the chunk is passed on, the rest only after the gate opens.
+func (c *sconn) Write(p []byte) (int, error) {
+	c.wmu.Lock()
+	defer c.wmu.Unlock()
+	park := false
+	if c.wpending == 0 {
+		he := bytes.Index(p, []byte("\r\n\r\n"))
+		if he < 0 {
+			c.w.log.add("bad:%d:head-not-in-first-chunk", c.k)
+			return c.Conn.Write(p)
+		}
+		head := strings.ToLower(string(p[:he]))
+		cl := 0
+		mark := 0
+		for _, ln := range strings.Split(head, "\r\n") {
+			if strings.HasPrefix(ln, "content-length:") {
+				cl, _ = strconv.Atoi(strings.TrimSpace(ln[len("content-length:"):]))
+			}
+			if strings.HasPrefix(ln, "connection:") && strings.Contains(ln, "close") {
+				mark = 1
+			}
+		}
+		c.wpending = he + 4 + cl
+		c.w.log.add("ws:%d:%d", c.k, mark)
+		if c.plan != nil && c.plan.point == "write" && c.wseq == c.plan.parkSeq {
+			park = true
+		}
+		c.wseq++
+	}
+	written := 0
+	if park && len(p) >= 2 {
+		h := len(p) / 2
+		n, err := c.Conn.Write(p[:h])
+		written += n
+		if err != nil {
+			return written, err
+		}
+		c.plan.arrive()
+		waitCh(c.plan.gate, 30*time.Second)
+		p = p[h:]
+	}
+	n, err := c.Conn.Write(p)
+	written += n
+	c.wpending -= written
+	if c.wpending < 0 {
+		c.w.log.add("bad:%d:wrote-past-content-length", c.k)
+		c.wpending = 0
+	}
+	if err == nil && c.wpending == 0 {
+		c.w.log.add("we:%d", c.k)
+	}
+	return written, err
+}
+
+type wlistener struct {
+	net.Listener
+	w        *world
+	inAccept int32
+}
+
+func (l *wlistener) Accept() (net.Conn, error) {
+	atomic.StoreInt32(&l.inAccept, 1)
+	c, err := l.Listener.Accept()
+	if err != nil {
+		return c, err
+	}
+	w := l.w
+	w.mu.Lock()
+	k := len(w.byIdx)
+	sc := &sconn{Conn: c, w: w, k: k, closed: make(chan struct{})}
+	if k < len(w.plans) {
+		sc.plan = w.plans[k]
+	}
+	w.byIdx = append(w.byIdx, sc)
+	w.conns[c.RemoteAddr().String()] = sc
+	w.log.add("acc:%d", k)
+	w.mu.Unlock()
+	return sc, nil
+}
+
+func (w *world) connOf(addr string) *sconn {
+	w.mu.Lock()
+	defer w.mu.Unlock()
+	return w.conns[addr]
+}
+
+func (w *world) nAccepted() int {
+	w.mu.Lock()
+	defer w.mu.Unlock()
+	return len(w.byIdx)
+}
+
+// ids from the request headers the client sets
+func ids(req *http.Request) (string, int) {
+	i, _ := strconv.Atoi(req.Header.Get("X-Seq"))
+	return req.Header.Get("X-Conn"), i
+}
+
+func (w *world) at(point string, req *http.Request, start, end string, endArg func() string) {
+	addr, i := ids(req)
+	sc := w.connOf(addr)
+	if sc == nil {
+		w.log.add("bad:-1:unknown-conn-in-%s", point)
+		return
+	}
+	w.log.add("%s:%d", start, sc.k)
+	if sc.plan != nil && sc.plan.point == point && sc.plan.parkSeq == i {
+		sc.plan.arrive()
+		waitCh(sc.plan.gate, 30*time.Second)
+	}
+	w.log.add("%s:%d%s", end, sc.k, endArg())
+}
+
+type reqMod struct{ w *world }
+
+func (m reqMod) ModifyRequest(req *http.Request) error {
+	m.w.at("reqmod", req, "rqs", "rqe", func() string { return "" })
+	return nil
+}
+
+type resMod struct{ w *world }
+
+func (m resMod) ModifyResponse(res *http.Response) error {
+	m.w.at("resmod", res.Request, "rms", "rme", func() string { return "" })
+	return nil
+}
+
+type rtrip struct{ w *world }
+
+func (t rtrip) RoundTrip(req *http.Request) (*http.Response, error) {
+	rc := false
+	addr, i := ids(req)
+	if sc := t.w.connOf(addr); sc != nil && sc.plan != nil && sc.plan.parkSeq == i && sc.plan.resClose {
+		rc = true
+	}
+	t.w.at("rt", req, "rts", "rte", func() string {
+		if rc {
+			return ":1"
+		}
+		return ":0"
+	})
+	res := &http.Response{
+		Status: "200 OK", StatusCode: 200, Proto: "HTTP/1.1", ProtoMajor: 1, ProtoMinor: 1,
+		Header:        http.Header{"Content-Type": {"application/octet-stream"}},
+		Body:          io.NopCloser(bytes.NewReader(t.w.body)),
+		ContentLength: int64(len(t.w.body)),
+		Request:       req,
+		Close:         rc,
+	}
+	return res, nil
+}
+
+func newWorld(bodyLen int, plans []*cplan) (*world, error) {
+	mlog.SetLevel(mlog.Silent)
+	w := &world{log: &evlog{}, conns: map[string]*sconn{}, plans: plans, serveDone: make(chan struct{})}
+	w.body = make([]byte, bodyLen)
+	for i := range w.body {
+		w.body[i] = byte('a' + i%26)
+	}
+	l, err := net.Listen("tcp", "127.0.0.1:0")
+	if err != nil {
+		return nil, err
+	}
+	w.ln = &wlistener{Listener: l, w: w}
+	w.p = martian.NewProxy()
+	w.p.SetTimeout(60 * time.Second)
+	w.p.SetRoundTripper(rtrip{w})
+	w.p.SetRequestModifier(reqMod{w})
+	w.p.SetResponseModifier(resMod{w})
+	go func() {
+		defer close(w.serveDone)
+		defer func() {
+			if x := recover(); x != nil {
+				w.log.add("bad:-1:serve-panic")
+			}
+		}()
+		w.p.Serve(w.ln)
+	}()
+	// Serve has passed its first Closing() check and is in Accept
+	poll(stepDeadline, func() bool { return atomic.LoadInt32(&w.ln.inAccept) == 1 })
+	return w, nil
+}
+
+// ---- client side ----
+
+type client struct {
+	w     *world
+	c     net.Conn
+	addr  string
+	k     int // -1 until known
+	seq   int
+	resps int32
+	eof   chan struct{}
+}
+
+func (w *world) dial() (*client, error) {
+	c, err := net.DialTimeout("tcp", w.ln.Addr().String(), stepDeadline)
+	if err != nil {
+		return nil, err
+	}
+	return &client{w: w, c: c, addr: c.LocalAddr().String(), k: -1, eof: make(chan struct{})}, nil
+}
+
+// evKey is the connection index if known, else a placeholder resolved when the log is rendered.
+func (cl *client) key() string {
+	if cl.k >= 0 {
+		return strconv.Itoa(cl.k)
+	}
+	return "@" + cl.addr
+}
+
+func (cl *client) reader() {
+	defer close(cl.eof)
+	br := bufio.NewReader(cl.c)
+	for {
+		cl.c.SetReadDeadline(time.Now().Add(40 * time.Second))
+		if _, err := br.Peek(1); err != nil { // closed between responses (EOF or reset): no partial response
+			if ne, ok := err.(net.Error); ok && ne.Timeout() {
+				cl.w.log.add("bad:%s:client-read-timeout", cl.key())
+			}
+			cl.w.log.add("eof:%s", cl.key())
+			return
+		}
+		res, err := http.ReadResponse(br, nil)
+		if err != nil {
+			if err != io.EOF && !strings.Contains(err.Error(), "reset") && !strings.Contains(err.Error(), "closed") {
+				if err == io.ErrUnexpectedEOF {
+					cl.w.log.add("bad:%s:truncated-head", cl.key())
+				} else {
+					cl.w.log.add("bad:%s:read-%s", cl.key(), sanitize(err.Error()))
+				}
+			}
+			cl.w.log.add("eof:%s", cl.key())
+			return
+		}
+		mark := 0
+		if res.Close {
+			mark = 1
+		}
+		cl.w.log.add("head:%s:%d", cl.key(), mark)
+		b, err := io.ReadAll(res.Body)
+		if err != nil || res.StatusCode != 200 || !bytes.Equal(b, cl.w.body) {
+			cl.w.log.add("bad:%s:incomplete-response-%d-of-%d", cl.key(), len(b), len(cl.w.body))
+			cl.w.log.add("eof:%s", cl.key())
+			return
+		}
+		cl.w.log.add("resp:%s:%d", cl.key(), mark)
+		atomic.AddInt32(&cl.resps, 1)
+	}
+}
+
+func sanitize(s string) string {
+	s = strings.Map(func(r rune) rune {
+		if r == ' ' || r == ':' {
+			return '_'
+		}
+		return r
+	}, s)
+	if len(s) > 40 {
+		s = s[:40]
+	}
+	return s
+}
+
+func (cl *client) reqBytes(closeHdr bool) []byte {
+	s := "GET http://" + hostName + "/ HTTP/1.1\r\nHost: " + hostName + "\r\nX-Conn: " + cl.addr + "\r\nX-Seq: " + strconv.Itoa(cl.seq) + "\r\n"
+	if closeHdr {
+		s += "Connection: close\r\n"
+	}
+	return []byte(s + "\r\n")
+}
+
+func (cl *client) sendFull(closeHdr bool) error {
+	b := cl.reqBytes(closeHdr)
+	rc := 0
+	if closeHdr {
+		rc = 1
+	}
+	cl.w.log.add("snd:%s:f:%d", cl.key(), rc)
+	cl.seq++
+	cl.c.SetWriteDeadline(time.Now().Add(stepDeadline))
+	_, err := cl.c.Write(b)
+	return err
+}
+
+func poll(d time.Duration, f func() bool) bool {
+	end := time.Now().Add(d)
+	for i := 0; ; i++ {
+		if f() {
+			return true
+		}
+		if time.Now().After(end) {
+			return false
+		}
+		if i < 50 {
+			time.Sleep(50 * time.Microsecond)
+		} else {
+			time.Sleep(500 * time.Microsecond)
+		}
+	}
+}
+
+// ---- scenario ----
+
+type scenario struct {
+	pts   []string
+	x     []int
+	q, s  []bool
+	order []int
+	body  int
+}
+
+var points = []string{"idle", "head", "reqmod", "rt", "resmod", "write"}
+
+func parseInts(s string) ([]int, bool) {
+	var out []int
+	for _, f := range strings.Split(s, ",") {
+		n, err := strconv.Atoi(f)
+		if err != nil || n < 0 {
+			return nil, false
+		}
+		out = append(out, n)
+	}
+	return out, true
+}
+
+func parseScn(op string) (*scenario, bool) {
+	f := strings.Fields(op)
+	sc := &scenario{body: 64}
+	for _, t := range f[1:] {
+		kv := strings.SplitN(t, "=", 2)
+		if len(kv) != 2 {
+			return nil, false
+		}
+		switch kv[0] {
+		case "p":
+			sc.pts = strings.Split(kv[1], ",")
+		case "x":
+			v, ok := parseInts(kv[1])
+			if !ok {
+				return nil, false
+			}
+			sc.x = v
+		case "q", "s":
+			v, ok := parseInts(kv[1])
+			if !ok {
+				return nil, false
+			}
+			bs := make([]bool, len(v))
+			for i := range v {
+				bs[i] = v[i] != 0
+			}
+			if kv[0] == "q" {
+				sc.q = bs
+			} else {
+				sc.s = bs
+			}
+		case "o":
+			v, ok := parseInts(kv[1])
+			if !ok {
+				return nil, false
+			}
+			sc.order = v
+		case "b":
+			n, err := strconv.Atoi(kv[1])
+			if err != nil || n < 0 || n > 1<<20 {
+				return nil, false
+			}
+			sc.body = n
+		default:
+			return nil, false
+		}
+	}
+	n := len(sc.pts)
+	if n < 1 || n > 4 {
+		return nil, false
+	}
+	if sc.x == nil {
+		sc.x = make([]int, n)
+	}
+	if sc.q == nil {
+		sc.q = make([]bool, n)
+	}
+	if sc.s == nil {
+		sc.s = make([]bool, n)
+	}
+	if sc.order == nil {
+		for i := 0; i < n; i++ {
+			sc.order = append(sc.order, i)
+		}
+	}
+	if len(sc.x) != n || len(sc.q) != n || len(sc.s) != n || len(sc.order) != n {
+		return nil, false
+	}
+	seen := map[int]bool{}
+	for _, o := range sc.order {
+		if o >= n || seen[o] {
+			return nil, false
+		}
+		seen[o] = true
+	}
+	for i, p := range sc.pts {
+		switch p {
+		case "idle", "head", "reqmod", "rt", "resmod", "write":
+		case "gate", "late":
+			if i != n-1 { // Serve is stuck behind a gate conn; after shutdown it accepts at most one more
+				return nil, false
+			}
+		default:
+			return nil, false
+		}
+		if sc.x[i] > 3 {
+			return nil, false
+		}
+	}
+	return sc, true
+}
+
+type verdict struct {
+	fail, sig string
+}
+
+func (v *verdict) set(sig, format string, a ...interface{}) {
+	if v.fail == "" {
+		v.fail = fmt.Sprintf(format, a...)
+		v.sig = sig
+	}
+}
+
+func runScenario(sc *scenario) (trace []string, v verdict, counted map[int]bool) {
+	n := len(sc.pts)
+	plans := make([]*cplan, n)
+	for k := 0; k < n; k++ {
+		plans[k] = &cplan{point: sc.pts[k], parkSeq: sc.x[k], resClose: sc.s[k], gate: make(chan struct{}), parked: make(chan struct{})}
+	}
+	w, err := newWorld(sc.body, plans)
+	if err != nil {
+		v.set("c07:harness", "listen: %v", err)
+		return nil, v, nil
+	}
+	counted = map[int]bool{}
+	clients := make([]*client, n)
+	defer func() {
+		for _, pl := range plans {
+			pl.release()
+		}
+		w.ln.Close()
+		for _, cl := range clients {
+			if cl != nil {
+				cl.c.Close()
+			}
+		}
+		waitCh(w.serveDone, stepDeadline)
+	}()
+
+	connect := func(k int) bool {
+		cl, err := w.dial()
+		if err != nil {
+			v.set("c07:harness", "dial %d: %v", k, err)
+			return false
+		}
+		clients[k] = cl
+		if !poll(stepDeadline, func() bool { return w.nAccepted() > k }) {
+			v.set("c07:no-progress:accept", "connection %d was not accepted within %v", k, stepDeadline)
+			return false
+		}
+		cl.k = k
+		go cl.reader()
+		return true
+	}
+	serverIdle := func(k int, minRead int64) bool {
+		sc := w.byIdx[k]
+		return poll(stepDeadline, func() bool {
+			return atomic.LoadInt32(&sc.inRead) == 1 && atomic.LoadInt64(&sc.readN) >= minRead
+		})
+	}
+
+	// 1. drive every connection to its point
+	for k := 0; k < n; k++ {
+		pt := sc.pts[k]
+		if pt == "late" {
+			continue
+		}
+		if !connect(k) {
+			return w.log.snapshot(), v, counted
+		}
+		cl := clients[k]
+		if pt == "gate" {
+			if waitCh(plans[k].parked, 500*time.Millisecond) {
+				continue
+			}
+			// Serve no longer evaluates RemoteAddr between Accept and the spawn (e.g. the debug log was
+			// removed): the schedule of F07 cannot be forced this way; the connection is an idle one
+			core.Count("gate-ineffective")
+			plans[k].release()
+			pt = "idle"
+			sc.pts[k] = "idle"
+		}
+		var sent int64
+		for i := 0; i < sc.x[k]; i++ {
+			b := cl.reqBytes(false)
+			sent += int64(len(b))
+			if err := cl.sendFull(false); err != nil {
+				v.set("c07:harness", "send: %v", err)
+				return w.log.snapshot(), v, counted
+			}
+			want := int32(i + 1)
+			if !poll(stepDeadline, func() bool { return atomic.LoadInt32(&cl.resps) >= want }) {
+				v.set("c07:no-progress:warmup", "connection %d: no complete response to warm-up exchange %d", k, i)
+				return w.log.snapshot(), v, counted
+			}
+		}
+		switch pt {
+		case "idle":
+			if !serverIdle(k, sent) {
+				v.set("c07:no-progress:idle", "connection %d: handler did not reach the request read", k)
+				return w.log.snapshot(), v, counted
+			}
+		case "head":
+			b := cl.reqBytes(false)
+			part := b[:len(b)/2]
+			w.log.add("snd:%d:p", k)
+			cl.c.Write(part)
+			if !serverIdle(k, sent+int64(len(part))) {
+				v.set("c07:no-progress:head", "connection %d: handler did not read the partial head", k)
+				return w.log.snapshot(), v, counted
+			}
+		default:
+			if err := cl.sendFull(sc.q[k]); err != nil {
+				v.set("c07:harness", "send: %v", err)
+				return w.log.snapshot(), v, counted
+			}
+			if !waitCh(plans[k].parked, stepDeadline) {
+				v.set("c07:no-progress:"+pt, "connection %d: exchange did not reach %s", k, pt)
+				return w.log.snapshot(), v, counted
+			}
+		}
+		counted[k] = true // its handler has read from the connection, hence passed conns.Add(1)
+	}
+
+	// 2. shutdown
+	ret := make(chan struct{})
+	w.log.add("call")
+	go func() {
+		defer func() {
+			if x := recover(); x != nil {
+				w.log.add("bad:-1:close-panic")
+			}
+		}()
+		w.p.Close()
+		w.log.add("ret")
+		close(ret)
+	}()
+	if !poll(stepDeadline, w.p.Closing) {
+		v.set("c07:no-progress:closing", "Closing() not true %v after Close() was called", stepDeadline)
+		return w.log.snapshot(), v, counted
+	}
+	w.log.add("obs")
+	for k := 0; k < n; k++ {
+		if sc.pts[k] == "late" {
+			if !connect(k) {
+				// the listener may already be closed by Serve: then nothing was accepted
+				v = verdict{}
+				clients[k] = nil
+				break
+			}
+			clients[k].sendFull(false) // tempt the proxy to serve it
+		}
+	}
+
+	// 3. releases, in the given order
+	for _, k := range sc.order {
+		switch sc.pts[k] {
+		case "idle", "late":
+		case "head":
+			b := clients[k].reqBytes(false)
+			w.log.add("snd:%d:f:0", k) // the request is complete now (too late: the handler has given up)
+			clients[k].c.SetWriteDeadline(time.Now().Add(time.Second))
+			clients[k].c.Write(b[len(b)/2:])
+		case "gate":
+			select {
+			case <-ret:
+			case <-time.After(3 * time.Millisecond): // let Close reach conns.Wait (it then holds connsMu)
+			}
+			w.log.add("open:%d", k)
+			plans[k].release()
+		default:
+			w.log.add("open:%d", k)
+			plans[k].release()
+			if !waitCh(w.byIdx[k].closed, stepDeadline) {
+				v.set("c07:conn-not-closed", "connection %d (parked in %s) was not closed within %v of its release during shutdown", k, sc.pts[k], stepDeadline)
+			}
+		}
+	}
+
+	// 4. settle
+	if !waitCh(ret, stepDeadline) {
+		v.set("c07:close-hang", "Close() did not return within %v after every parked exchange was released", stepDeadline)
+	}
+	for k := 0; k < len(w.byIdx) && k < n; k++ {
+		d := stepDeadline
+		if v.fail != "" {
+			d = 200 * time.Millisecond
+		}
+		if !waitCh(w.byIdx[k].closed, d) {
+			v.set("c07:conn-not-closed", "connection %d (%s) was never closed by its handler", k, sc.pts[k])
+		}
+		if clients[k] != nil && !waitCh(clients[k].eof, d) {
+			v.set("c07:conn-not-closed", "client of connection %d (%s) saw no EOF", k, sc.pts[k])
+		}
+	}
+	return w.log.snapshot(), v, counted
+}
+
+// ---- the property oracle, over the event log only ----
+
+type ev struct {
+	kind string
+	k    int
+	arg  string
+}
+
+func parseEv(s string) ev {
+	f := strings.Split(s, ":")
+	e := ev{kind: f[0], k: -1}
+	if len(f) > 1 {
+		if n, err := strconv.Atoi(f[1]); err == nil {
+			e.k = n
+		}
+	}
+	if len(f) > 2 {
+		e.arg = strings.Join(f[2:], ":")
+	}
+	return e
+}
+
+// judge evaluates C07 over the log. counted[k]: the handler of connection k read from it before
+// Close() was called (event rd:k), so it had passed conns.Add.
+func judge(trace []string) (v verdict, early bool) {
+	counted := map[int]bool{}
+	evs := make([]ev, len(trace))
+	posRet, posObs, posCall := -1, -1, -1
+	for i, s := range trace {
+		evs[i] = parseEv(s)
+		switch evs[i].kind {
+		case "ret":
+			posRet = i
+		case "obs":
+			posObs = i
+		case "call":
+			posCall = i
+		}
+	}
+	type cs struct {
+		acc, cc, eof, rd   int
+		rqs, we, resp, rme []int
+		marks              []string
+		ws                 int
+		bad                string
+	}
+	conns := map[int]*cs{}
+	get := func(k int) *cs {
+		if conns[k] == nil {
+			conns[k] = &cs{acc: -1, cc: -1, eof: -1, rd: -1}
+		}
+		return conns[k]
+	}
+	for i, e := range evs {
+		if e.kind == "bad" {
+			if e.k < 0 {
+				v.set("c07:panic", "%s", trace[i])
+				continue
+			}
+			c := get(e.k)
+			if c.bad == "" {
+				c.bad = e.arg
+			}
+			continue
+		}
+		if e.k < 0 {
+			continue
+		}
+		c := get(e.k)
+		switch e.kind {
+		case "acc":
+			c.acc = i
+		case "rd":
+			c.rd = i
+			if posCall < 0 || i < posCall {
+				counted[e.k] = true
+			}
+		case "cc":
+			c.cc = i
+		case "eof":
+			c.eof = i
+		case "rqs":
+			c.rqs = append(c.rqs, i)
+		case "rme":
+			c.rme = append(c.rme, i)
+		case "we":
+			c.we = append(c.we, i)
+		case "ws":
+			c.ws++
+		case "resp":
+			c.resp = append(c.resp, i)
+			c.marks = append(c.marks, e.arg)
+		}
+	}
+	var ks []int
+	for k := range conns {
+		ks = append(ks, k)
+	}
+	sort.Ints(ks)
+	for _, k := range ks {
+		c := conns[k]
+		if c.acc < 0 {
+			continue
+		}
+		// every exchange whose request modifier started gets its complete response before the close
+		if c.bad != "" {
+			v.set("c07:incomplete-response", "connection %d: %s (request modifier started %d times, %d complete responses)", k, c.bad, len(c.rqs), len(c.resp))
+		}
+		if len(c.resp) != len(c.rqs) {
+			v.set("c07:incomplete-response", "connection %d: request modifier started %d times but the client received %d complete responses", k, len(c.rqs), len(c.resp))
+		}
+		nwe := 0
+		for _, p := range c.we {
+			if c.cc < 0 || p < c.cc {
+				nwe++
+			}
+		}
+		if nwe != len(c.rqs) {
+			v.set("c07:incomplete-response", "connection %d: closed with %d responses completely written for %d started exchanges", k, nwe, len(c.rqs))
+		}
+		// marked connection-close whenever shutdown was observable at the close decision
+		for i, p := range c.rme {
+			if posObs >= 0 && p > posObs && i < len(c.marks) && c.marks[i] != "1" {
+				v.set("c07:unmarked-response", "connection %d exchange %d: response modifier returned after shutdown was observable, response not marked Connection: close", k, i)
+			}
+		}
+		// no request modifier starts after Close has returned
+		for _, p := range c.rqs {
+			if posRet >= 0 && p > posRet {
+				v.set("c07:reqmod-after-return", "connection %d: request modifier started after Close() had returned", k)
+			}
+		}
+		// connections accepted after shutdown began are closed without being served
+		// ("served" starts with the handler reading a request from the connection)
+		if posObs >= 0 && c.acc > posObs && (len(c.rqs) > 0 || c.ws > 0 || c.rd >= 0) {
+			v.set("c07:late-conn-served", "connection %d was accepted after shutdown was observable; its handler went on to serve it (request reads: %v, request modifier starts: %d, responses: %d)", k, c.rd >= 0, len(c.rqs), c.ws)
+		}
+		// Close returns only after every accepted connection has been closed by its handler
+		if posRet >= 0 && c.acc < posRet && (c.cc < 0 || c.cc > posRet) {
+			early = true
+			if counted[k] {
+				v.set("c07:close-returned-before-counted-handler-done", "Close() returned while connection %d, whose handler was already serving it, was not closed", k)
+			} else {
+				v.set("c07:close-returned-before-uncounted-conn-closed", "Close() returned while connection %d, accepted before the return but whose handler had not yet executed conns.Add(1), was still open; it was closed afterwards", k)
+			}
+		}
+	}
+	return v, early
+}
+
+func render(trace []string) string {
+	var b strings.Builder
+	b.WriteString("trace")
+	for _, t := range trace {
+		e := parseEv(t)
+		switch e.kind {
+		case "open", "head", "bad": // not part of the model's alphabet (bad: oracle only)
+			continue
+		}
+		if strings.Contains(t, "@") { // client event of a connection that was never accepted
+			continue
+		}
+		b.WriteByte(' ')
+		b.WriteString(t)
+	}
+	return b.String()
+}
+
+func implLine(trace []string, early bool) string {
+	n := len(strings.Fields(render(trace))) - 1
+	e := 0
+	if early {
+		e = 1
+	}
+	return fmt.Sprintf("ok n=%d early=%d", n, e)
+}
 
 type ex struct{}
 
-func (ex) Do(op string) core.Result { return core.Result{Impl: "bad-op"} }
-func (ex) Close()                   {}
+func (P) NewExec() core.Exec { return &ex{} }
+func (e *ex) Close()         {}
+
+// hangs counts scenarios that ended in a deadline (something did not happen). After a few of them the
+// remaining scenarios of the run are skipped: each costs several deadlines, the failing inputs are
+// already recorded, and the check must stay bounded when the proxy hangs systematically.
+var hangs int32
+
+func isHang(sig string) bool {
+	return sig == "c07:close-hang" || sig == "c07:conn-not-closed" || strings.HasPrefix(sig, "c07:no-progress")
+}
+
+func (e *ex) Do(op string) core.Result {
+	if atomic.LoadInt32(&hangs) >= 6 && (strings.HasPrefix(op, "scn ") || strings.HasPrefix(op, "race ")) {
+		core.Count("skipped-after-repeated-hangs")
+		return core.Result{Impl: "skipped", SkipModel: true}
+	}
+	r := e.do(op)
+	if isHang(r.Sig) {
+		atomic.AddInt32(&hangs, 1)
+	}
+	return r
+}
+
+func (e *ex) do(op string) core.Result {
+	switch {
+	case strings.HasPrefix(op, "scn "):
+		sc, ok := parseScn(op)
+		if !ok {
+			return core.Result{Impl: "bad-op", SkipModel: true}
+		}
+		trace, v, counted := runScenario(sc)
+		_ = counted
+		jv, early := judge(trace)
+		if jv.fail != "" {
+			v = jv
+		}
+		for _, pt := range sc.pts {
+			core.Count("point:" + pt)
+		}
+		core.Count(fmt.Sprintf("conns:%d", len(sc.pts)))
+		if early {
+			core.Count("close-returned-early")
+		}
+		detail := v.fail
+		if detail != "" {
+			detail += " | trace: " + strings.Join(trace, " ")
+		}
+		return core.Result{Impl: implLine(trace, early), Fail: detail, Sig: v.sig, ModelOp: render(trace)}
+	case strings.HasPrefix(op, "race "):
+		return doRace(op)
+	}
+	return core.Result{Impl: "bad-op", SkipModel: true}
+}
+
+// ---- race: N clients against Close ----
+
+func doRace(op string) core.Result {
+	nc, delay := 4, 0
+	for _, t := range strings.Fields(op)[1:] {
+		kv := strings.SplitN(t, "=", 2)
+		if len(kv) != 2 {
+			return core.Result{Impl: "bad-op", SkipModel: true}
+		}
+		n, err := strconv.Atoi(kv[1])
+		if err != nil || n < 0 || n > 1000000 {
+			return core.Result{Impl: "bad-op", SkipModel: true}
+		}
+		switch kv[0] {
+		case "c":
+			nc = n
+		case "d":
+			delay = n
+		default:
+			return core.Result{Impl: "bad-op", SkipModel: true}
+		}
+	}
+	if nc > 64 {
+		nc = 64
+	}
+	w, err := newWorld(32, nil)
+	if err != nil {
+		return core.Result{Impl: "harness-error", Fail: err.Error(), Sig: "c07:harness", SkipModel: true}
+	}
+	var v verdict
+	var wg sync.WaitGroup
+	var cmu sync.Mutex
+	var clients []*client
+	for i := 0; i < nc; i++ {
+		wg.Add(1)
+		go func(i int) {
+			defer wg.Done()
+			cl, err := w.dial()
+			if err != nil {
+				return
+			}
+			cmu.Lock()
+			clients = append(clients, cl)
+			cmu.Unlock()
+			go cl.reader()
+			for j := 0; j < 1+i%3; j++ {
+				if cl.sendFull(false) != nil {
+					break
+				}
+				want := int32(j + 1)
+				if !poll(2*time.Second, func() bool {
+					select {
+					case <-cl.eof:
+						return true
+					default:
+					}
+					return atomic.LoadInt32(&cl.resps) >= want
+				}) {
+					break
+				}
+			}
+			waitCh(cl.eof, stepDeadline)
+		}(i)
+	}
+	time.Sleep(time.Duration(delay) * time.Microsecond)
+	ret := make(chan struct{})
+	w.log.add("call")
+	go func() {
+		defer func() {
+			if x := recover(); x != nil {
+				w.log.add("bad:-1:close-panic")
+			}
+		}()
+		w.p.Close()
+		w.log.add("ret")
+		close(ret)
+	}()
+	if !waitCh(ret, stepDeadline) {
+		v.set("c07:close-hang", "Close() did not return within %v with %d racing clients", stepDeadline, nc)
+	}
+	done := make(chan struct{})
+	go func() { wg.Wait(); close(done) }()
+	// every accepted connection is closed by its handler
+	poll(stepDeadline, func() bool {
+		w.mu.Lock()
+		defer w.mu.Unlock()
+		for _, sc := range w.byIdx {
+			select {
+			case <-sc.closed:
+			default:
+				return false
+			}
+		}
+		return true
+	})
+	w.ln.Close()
+	waitCh(w.serveDone, stepDeadline)
+	if !waitCh(done, 2*stepDeadline) {
+		v.set("c07:conn-not-closed", "a racing client saw neither a response nor EOF")
+	}
+	cmu.Lock()
+	for _, cl := range clients {
+		cl.c.Close()
+	}
+	cmu.Unlock()
+	raw := w.log.snapshot()
+	// resolve client keys (@addr) to connection indices
+	idx := map[string]int{}
+	w.mu.Lock()
+	for a, sc := range w.conns {
+		idx[a] = sc.k
+	}
+	unclosed := -1
+	for _, sc := range w.byIdx {
+		select {
+		case <-sc.closed:
+		default:
+			unclosed = sc.k
+		}
+	}
+	w.mu.Unlock()
+	if unclosed >= 0 {
+		v.set("c07:conn-not-closed", "connection %d was accepted but never closed by its handler", unclosed)
+	}
+	trace := make([]string, 0, len(raw))
+	for _, t := range raw {
+		if i := strings.Index(t, "@"); i >= 0 {
+			rest := t[i+1:]
+			// the address itself contains ':' — it ends at the next ':' after the port
+			f := strings.SplitN(rest, ":", 3)
+			addr := f[0]
+			tail := ""
+			if len(f) >= 2 {
+				addr = f[0] + ":" + f[1]
+			}
+			if len(f) == 3 {
+				tail = ":" + f[2]
+			}
+			if k, ok := idx[addr]; ok {
+				t = t[:i] + strconv.Itoa(k) + tail
+			}
+		}
+		trace = append(trace, t)
+	}
+	// a client's send may be logged before the accept of its connection: the model only needs the sends
+	// to precede the request read, so move every accept in front of the first event of its connection
+	trace = hoistAccepts(trace)
+	jv, early := judge(trace)
+	if v.fail == "" {
+		v = jv
+	}
+	started := 0
+	for _, t := range trace {
+		if strings.HasPrefix(t, "rqs:") {
+			started = 1
+		}
+	}
+	core.Count(fmt.Sprintf("race-started:%d", started))
+	if early {
+		core.Count("close-returned-early")
+	}
+	detail := v.fail
+	if detail != "" {
+		detail += " | trace: " + strings.Join(trace, " ")
+	}
+	// the model driver keeps one candidate state per way of placing the invisible steps: beyond 6
+	// simultaneously racing handlers that set is too large, the op is then judged by the oracle only
+	return core.Result{Impl: implLine(trace, early) + fmt.Sprintf(" started=%d", started), Fail: detail, Sig: v.sig,
+		ModelOp: render(trace) + fmt.Sprintf(" started=%d", started), SkipModel: nc > 6}
+}
+
+// hoistAccepts keeps the relative order of all accepts (the acceptor is sequential) and of all other
+// events, and delays client sends of connection k until just after acc:k. Sends are environment
+// moves; delaying them is sound for acceptance because the proxy cannot have reacted to bytes of a
+// connection it had not accepted.
+func hoistAccepts(trace []string) []string {
+	accepted := map[int]bool{}
+	pending := map[int][]string{}
+	var out []string
+	for _, t := range trace {
+		e := parseEv(t)
+		if e.kind == "acc" {
+			accepted[e.k] = true
+			out = append(out, t)
+			out = append(out, pending[e.k]...)
+			delete(pending, e.k)
+			continue
+		}
+		if e.kind == "snd" && e.k >= 0 && !accepted[e.k] {
+			pending[e.k] = append(pending[e.k], t)
+			continue
+		}
+		out = append(out, t)
+	}
+	return out
+}
+
+// ---- generator ----
+
+func join(xs []int) string {
+	s := make([]string, len(xs))
+	for i, x := range xs {
+		s[i] = strconv.Itoa(x)
+	}
+	return strings.Join(s, ",")
+}
+
+func perms(n int) [][]int {
+	if n == 1 {
+		return [][]int{{0}}
+	}
+	var out [][]int
+	for _, p := range perms(n - 1) {
+		for i := 0; i <= len(p); i++ {
+			q := append(append(append([]int{}, p[:i]...), n-1), p[i:]...)
+			out = append(out, q)
+		}
+	}
+	return out
+}
+
+func scnOp(pts []string, x, q, s, o []int, body int) string {
+	return fmt.Sprintf("scn p=%s x=%s q=%s s=%s o=%s b=%d", strings.Join(pts, ","), join(x), join(q), join(s), join(o), body)
+}
+
+func randScn(r *core.Rand, special bool) string {
+	n := r.Range(1, 3)
+	pts := make([]string, n)
+	x, q, s := make([]int, n), make([]int, n), make([]int, n)
+	for i := range pts {
+		pts[i] = points[r.Intn(len(points))]
+		if r.Chance(1, 3) {
+			x[i] = r.Range(1, 2)
+		}
+		if r.Chance(1, 6) {
+			q[i] = 1
+		}
+		if r.Chance(1, 6) {
+			s[i] = 1
+		}
+	}
+	if special {
+		pts[n-1] = r.Pick("gate", "late")
+		x[n-1], q[n-1], s[n-1] = 0, 0, 0
+	}
+	ps := perms(n)
+	body := []int{0, 1, 64, 64, 5000, 70000}[r.Intn(6)]
+	return scnOp(pts, x, q, s, ps[r.Intn(len(ps))], body)
+}
+
+func (P) Gen(r *core.Rand, tier string, emit func(ops []string)) {
+	zeros := func(n int) []int { return make([]int, n) }
+	if tier == "thorough" {
+		// exhaustive: every placement of the 6 points on 1..3 connections × every release order
+		var rec func(pts []string, n int)
+		rec = func(pts []string, n int) {
+			if len(pts) == n {
+				for _, o := range perms(n) {
+					emit([]string{scnOp(pts, zeros(n), zeros(n), zeros(n), o, 64)})
+				}
+				return
+			}
+			for _, p := range points {
+				rec(append(append([]string{}, pts...), p), n)
+			}
+		}
+		for n := 1; n <= 3; n++ {
+			rec(nil, n)
+		}
+		core.Notes["exhaustive"] = "all 6^n placements × n! release orders for n=1..3 (1374 scenarios), x=q=s=0, body 64"
+		// one connection: every point × warm-up exchanges × close flags × body sizes
+		for _, p := range points {
+			for x := 0; x <= 2; x++ {
+				for fl := 0; fl < 4; fl++ {
+					for _, b := range []int{0, 64, 5000, 70000} {
+						emit([]string{scnOp([]string{p}, []int{x}, []int{fl & 1}, []int{fl >> 1}, []int{0}, b)})
+					}
+				}
+			}
+		}
+		for i := 0; i < 4000; i++ {
+			emit([]string{randScn(r, i%4 == 0)})
+		}
+		for i := 0; i < 200; i++ {
+			emit([]string{fmt.Sprintf("race c=%d d=%d", r.Pick2(r.Range(1, 6), r.Range(7, 32)), r.Pick2(0, r.Range(0, 3000)))})
+		}
+		return
+	}
+	// quick: exhaustive for 1 and 2 connections (6 + 36·2 scenarios), then a seeded sample
+	var rec2 func(pts []string, n int)
+	rec2 = func(pts []string, n int) {
+		if len(pts) == n {
+			for _, o := range perms(n) {
+				emit([]string{scnOp(pts, zeros(n), zeros(n), zeros(n), o, 64)})
+			}
+			return
+		}
+		for _, p := range points {
+			rec2(append(append([]string{}, pts...), p), n)
+		}
+	}
+	rec2(nil, 1)
+	rec2(nil, 2)
+	core.Notes["exhaustive"] = "all 6^n placements × n! release orders for n=1..2 (78 scenarios), x=q=s=0, body 64"
+	for i := 0; i < 420; i++ {
+		emit([]string{randScn(r, i%5 == 0)})
+	}
+	for i := 0; i < 30; i++ {
+		emit([]string{fmt.Sprintf("race c=%d d=%d", r.Pick2(r.Range(1, 6), r.Range(7, 24)), r.Pick2(0, r.Range(0, 2000)))})
+	}
+}
